@@ -12,7 +12,7 @@ from ..config.yaml import (
     yaml_constructor,
 )
 from ..config.python import load_configuration as load_python_configuration
-from ..config.mapping import Translator, SectionPlugin
+from ..config.mapping import Translator, SectionPlugin, ConfigurationError
 from ...interfaces._partial import Partial
 
 
@@ -158,4 +158,9 @@ class PipelineTranslator(Translator):
                         prev_item = prev_item.__construct__()
                 assert not isinstance(prev_item, Partial)
                 items.append(prev_item)
+            if not items:
+                # nothing to run: the daemon would stay up idle
+                raise ConfigurationError(
+                    where="%s.pipeline" % where, what="pipeline must not be empty"
+                )
             return list(reversed(items))
